@@ -8,7 +8,8 @@ EXTENDS PatchText, Json, TLC
 CONSTANTS EmitCases, MaxFPs
 VARIABLES fps, ph
 
-Names == {"a/x", "b/x", "f y", "g\th", NULL}
+\* ("d//nUx": a doubled separator, and U stands for a non-ASCII letter: valid unquoted on input, quoted by the writer)
+Names == {"a/x", "b/x", "f y", "g\th", "d//nUx", NULL}
 L(s) == <<s, TRUE>>
 LN(s) == <<s, FALSE>>
 \* hunk shapes: sides as line sequences; includes empty sides, lines without final newline in any
